@@ -130,6 +130,28 @@ def run(tier, seed, replay):
                 q = r.choice([r.choice(cor)["src"], mutate(r, r.choice(cor)["src"].encode()).decode("utf-8", "replace").replace("\x00", ""), ".", "halt_error", "halt_error(300)", "error", "input", "inputs", "$ENV|length", "env|length", "input_filename", "debug", "stderr", "[limit(5;repeat(1))]", ".[", "@base64d", "ltrimstr(1)", "\"\\(1;2)\""])
                 argv.insert(r.randrange(len(argv) + 1), q)
                 clicases.append({"argv": argv, "stdin": list(r.choice(STDIN)), "halts": "halt" in q})
+            # every COMBINATION of the flags that select how input is read and how output is written (readers and wrappers are chosen by
+            # separate switches: a pair that disagrees about the value type must not crash), on documents of every kind
+            import itertools
+            inflags = ["-R", "--yaml-input", "-s", "-n", "--stream", "--seq"]
+            outflags = [[], ["-r"], ["-j"], ["--raw-output0"], ["--yaml-output"], ["-c", "-S"], ["--tab", "-C"]]
+            docs = [b"a: 1\n", b"- a\n- b: [1, 2]\n", b"1 2 3", b"\"s\"", b"{\"a\":[1,{\"b\":null}]}", b"", b"[1,", b"x: [\n", b"plain text\nline 2\n", b"\x1e[1]\n\x1e2", b"null"]
+            combos = [list(c) for k in range(1, 5) for c in itertools.combinations(inflags, k)]
+            for fl in (combos if not quick else r.sample(combos, 40) + [["-R", "--yaml-input", "-s"], ["--yaml-input", "--stream"], ["-R", "--stream", "-s"], ["--seq", "-R"], ["--yaml-input", "-s", "-n"]]):
+                for q in ((".", "inputs", "[., input?]") if not quick else (r.choice([".", "inputs", "[., input?]"]),)):
+                    for d in (docs if not quick else r.sample(docs, 4)):
+                        argv = fl + r.choice(outflags) + [q]
+                        r.shuffle(argv)
+                        clicases.append({"argv": argv, "stdin": list(d), "halts": False})
+            # regular expressions whose capture groups do not match left to right, are optional, nested, repeated, empty or named (the match
+            # records are built from the engine's index pairs: every arrangement of them must be handled)
+            res = ["(?:(a)|(b))+", "(a)|(b)", "((a)|b)*", "(?<x>a)?(?<y>b)?", "(a*)(b*)", "(?:(?<w>[a-z]+)|(?<n>[0-9]+)|:)+", "(a)(?:(b)|(c))*", "^(.)(.)?(.)?$", "(?i)(A)|(b)", "\\\\b(\\\\w+)\\\\b", "(|a)+", "(a|)(b|)", "()",
+                   "(?:(b)|(a))*", "((((a))))", "(a)?(b)?(c)?", "(?<k>.)(?<k2>.)?", "(\\\\d)|(\\\\D)", "(?:x|(y))+?", "(é)|(a)", "(?s)(.)(\\\\n)?"]
+            subj = [jqgen.V(x) for x in ("ba", "ab", "12:ab", "aXb", "", "abcabc", "éa☆", "a\nb", "yxy")]
+            for re_ in res:
+                for f in ('[match("%s")]', '[match("%s"; "g")]', 'capture("%s")', '[capture("%s"; "g")]', '[scan("%s")]', 'sub("%s"; "<\\(.)>")' if False else 'sub("%s"; "-")', 'gsub("%s"; "-")', '[splits("%s")]', 'test("%s")',
+                          '[match("%s"; "gi") | .captures[] | .offset, .length, .string, .name]', 'sub("(?<all>%s)"; .all)', '[.[]? // . | strings | match("%s"; "g").captures | length]'):
+                    libcases.append({"id": len(libcases), "srcb": list((f % re_).encode()), "inputs": subj if not quick else r.sample(subj, 4), "rep": 0})
         # --- library walks
         libres = vc.run_restartable([vh, "fuzz"], libcases, work, "fuzz", timeout=3400)
         trace = []
